@@ -185,15 +185,21 @@ CLAIMS = {
   technique="contract-based deductive verification (obligations at the lineage store via hooks, ghost flags for registry / cache writes) + bounded stand-ins on the real Context",
   design_ref="DESIGN.md section 6 (C02) and 10"),
  "C15": dict(
-  category="exploration",
-  text="BOUNDED (no obligation of this property is discharged deductively yet): the real strax.multi_run with real threads, worker "
-       "calls released one at a time in every enumerated completion order, returns one result per successful run in run-id order with "
-       "the run id attached, executes every run exactly once, raises a failing run's exception or omits it under ignore_errors; the real "
-       "Context returns, for a list of runs with 1..8 workers, the rows of sequential single-run calls.",
-  note="multi_run's scheduling loop (futures dict, wait, islice window) is not yet under contract. Thread-safety of the shared Context "
-       "under line-level interleavings of its plugin-resolution code is a concurrency property this technique family does not decide; the "
-       "context-level stand-in runs under the OS scheduler only.",
-  technique="bounded stand-in on the real code (controlled completion orders); contract-based proof of multi_run not available",
+  category="proof",
+  text="Contract-based deductive proof over the real source of strax.utils.multi_run, valid for every completion order of the "
+       "worker threads (the loop over finished futures is verified for an arbitrary finished future): every submission passes the "
+       "caller's function, the run id being scheduled, the caller's extra arguments and keywords without the bookkeeping keywords; a "
+       "future is filed under the run id it was submitted for; for a finished future the run-id column is built from that future's run "
+       "id and merged with that future's own result, and result and run id are collected in lock step; a failing future raises unless "
+       "ignore_errors, in which case nothing is collected for it; the returned list is re-ordered by the recorded run ids. Bounded "
+       "stand-ins on the real code: multi_run with real threads released in enumerated completion orders (every run executed exactly "
+       "once, output in run-id order with the run id attached, failures raised or omitted), and Context.get_array over several runs "
+       "with 1..8 workers equals sequential single-run calls.",
+  note="Not proved: that every run is submitted exactly once (islice window arithmetic), that the final list comprehension applies the "
+       "computed order, the temporary merge plugin in Context.get_array. Thread-safety of the shared Context (plugin registry and "
+       "caches) under line-level interleavings is a concurrency property this technique family does not decide; the context-level "
+       "stand-in runs under the OS scheduler only.",
+  technique="contract-based deductive verification (obligations at call / store sites via hooks, ghost function future -> run id) + bounded stand-ins with controlled completion orders",
   design_ref="DESIGN.md section 6 (C15) and 10"),
  "C08": dict(
   category="proof",
